@@ -5,6 +5,7 @@ import (
 	"encoding/hex"
 	"encoding/json"
 	"fmt"
+	"math"
 	"sort"
 	"strconv"
 	"strings"
@@ -49,8 +50,9 @@ type Replica struct {
 	gotRem bool // has applied at least one remote operation of another replica (beyond the creation snapshot)
 	hasLoc bool // has issued at least one local operation
 	stale  map[string]orda.Document
-	txh    orda.Document // a handle the application took inside the body of its last transaction and kept
-	recv   []string      // ids of remote operations applied, in order
+	shared map[string]interface{} // a value object the application keeps, changes and hands over again
+	txh    orda.Document          // a handle the application took inside the body of its last transaction and kept
+	recv   []string               // ids of remote operations applied, in order
 }
 
 // StepOut is what one call returned.
@@ -479,6 +481,16 @@ func (r *Replica) value(shape string) interface{} {
 	case "k":
 		// the same value every time, on every replica: a write that does not change what the key or slot shows
 		return "same"
+	case "sm":
+		// the application's own map, handed over again and again and changed in between: what an earlier call was given
+		// must not change with it
+		if r.shared == nil {
+			r.shared = map[string]interface{}{}
+		}
+		r.shared["x"] = r.tag()
+		return r.shared
+	case "nan":
+		return math.NaN() // not a JSON value
 	case "nil":
 		return nil
 	case "tnil":
